@@ -720,7 +720,20 @@ def _interp(x, xs, ys):
 def _c18(payload):
     cfg = payload["cfg"]
     viol = []
-    m = sim.build_model(cfg); m._initialize()
+    if payload.get("prehistory"):
+        # HISTORY: the same Soil / management / groundwater / CO2 objects were used before by another model with a
+        # shallow-rooted crop (Potato, Zmax 0.6 m); every soil the model runs on must still be built as specified
+        objs = sim.build_objects(cfg)
+        try:
+            from aquacrop.entities.crop import Crop
+            pre = dict(objs); pre["crop"] = Crop("Potato", planting_date=cfg["crop"]["planting_date"])
+            pre["weather_df"] = objs["weather_df"].copy()
+            m0 = sim.AquaCropModel(**pre); m0._initialize()
+        except Exception:
+            pass
+        m = sim.AquaCropModel(**objs); m._initialize()
+    else:
+        m = sim.build_model(cfg); m._initialize()
     ps = m._param_struct; prof = ps.Soil.Profile
     dz = np.array(prof.dz, dtype=float); n = len(dz)
     dzsum = np.array(prof.dzsum, dtype=float); zbot = np.array(prof.zBot, dtype=float); ztop = np.array(prof.z_top, dtype=float); zmid = np.array(prof.zMid, dtype=float)
@@ -805,6 +818,8 @@ def _c18(payload):
             viol.append(V("C18:iwc:%s:%s" % (iw["wc_type"], iw["method"]), "initial water content of compartment %d is %.9g, the specification (%s/%s %r at %r) gives %.9g" % (i, th0[i], iw["wc_type"], iw["method"], vals, dl, exp[i])))
     for v in viol:
         v["cfg"] = cfg
+        if payload.get("prehistory"):
+            v["prehistory"] = True
     return {"status": "ok", "violations": viol, "ncomp": n, "zmax": zmax, "deepened": bool(n != len(soil_user.profile) or float(zbot[-1]) > float(np.sum(soil_user.profile["dz"])) + 1e-9)}
 
 
